@@ -18,7 +18,7 @@ Record scase := {
 (* a history over several objects registered in one daemon (their classes may share a name): get_metadata
    calls and requests, in order; the model threads the per-class metadata cache through it *)
 Inductive hop :=
-| HMeta (obj : nat) (methods oneway attrs : list text)
+| HMeta (obj : nat) (answered : bool) (methods oneway attrs : list text)   (* answered = false: get_metadata raised *)
 | HReq (obj : nat) (r : request) (o : robs).
 Record hcase := { h_quirks : quirks; h_classes : list shape; h_objects : list nat; h_ops : list hop }.
 Inductive case := SC (c : scase) | PC (n : text) (impl_private : bool) | HC (c : hcase).
@@ -58,17 +58,21 @@ Definition check_scase (c : scase) : bool :=
 Definition bad_reqs (c : scase) : list nat :=
   mismatches (check_req (c_quirks c) (c_shape c)) (c_reqs c).
 
-Fixpoint check_hist (q : quirks) (classes : list shape) (objs : list nat) (c : cache) (ops : list hop) : bool :=
+Fixpoint check_hist (q : quirks) (classes : list shape) (objs : list nat) (st : mstate) (ops : list hop) : bool :=
   match ops with
   | [] => true
-  | HMeta o ms os ats :: rest =>
-      let '(md, c') := get_metadata isp (fun k => k) classes c (class_of objs o) in
-      let '(mm, mo, ma) := md in
-      set_eqb mm ms && set_eqb mo os && set_eqb ma ats && check_hist q classes objs c' rest
+  | HMeta o answered ms os ats :: rest =>
+      let '(a, st') := get_metadata isp (fun k => k) classes st (class_of objs o) in
+      (* an implementation that completes a scan the model expects to be aborted (e.g. it skips the raising attribute)
+         is accepted when its answer is the class's member list *)
+      let '(mm, mo, ma) := match a with Some md => md | None => meta_of isp (nth (class_of objs o) classes empty_shape) end in
+      (if answered then set_eqb mm ms && set_eqb mo os && set_eqb ma ats
+       else match a with None => true | Some _ => false end)
+      && check_hist q classes objs st' rest
   | HReq o r ob :: rest =>
-      check_req q (nth (class_of objs o) classes empty_shape) (r, ob) && check_hist q classes objs c rest
+      check_req q (nth (class_of objs o) classes empty_shape) (r, ob) && check_hist q classes objs st rest
   end.
-Definition check_hcase (c : hcase) : bool := check_hist (h_quirks c) (h_classes c) (h_objects c) [] (h_ops c).
+Definition check_hcase (c : hcase) : bool := check_hist (h_quirks c) (h_classes c) (h_objects c) ms_empty (h_ops c).
 
 Definition check_case (c : case) : bool :=
   match c with
